@@ -176,6 +176,12 @@ func latticeLabels(c coord) []string {
 	return c.labels
 }
 
+// midPlainLabels: extra witness values for coordinates that may be any Paillier plaintext.
+var midPlainLabels = []string{"2^(|N|-257)", "-2^(|N|-257)", "3*2^(|N|-258)", "-3*2^(|N|-258)", "2^(|N|-3)", "-2^(|N|-3)"}
+
+// midPlainSeeds: whether such a value trips a verifier depends on the challenge, so each is proved under several seeds.
+const midPlainSeeds = 8
+
 // diagonal labels used by the quick tier: zero / max / -max / rand
 func diagLabel(c coord, which string) string {
 	switch c.kind {
@@ -231,6 +237,23 @@ func value(c coord, label string, N *big.Int) *big.Int {
 		return new(big.Int).Rsh(new(big.Int).Sub(N, one), 1)
 	case "-(N-1)/2":
 		return neg(new(big.Int).Rsh(new(big.Int).Sub(N, one), 1))
+	case "2^(|N|-257)", "-2^(|N|-257)", "3*2^(|N|-258)", "-3*2^(|N|-258)", "2^(|N|-3)", "-2^(|N|-3)":
+		// magnitudes in the middle and at the top of the plaintext range: multiplied by a 256-bit challenge the
+		// response lands between N/2 and N, where a verifier's reduction to a plaintext is decided
+		nb := N.BitLen()
+		var v *big.Int
+		switch strings.TrimPrefix(label, "-") {
+		case "2^(|N|-257)":
+			v = pow2(nb - 257)
+		case "3*2^(|N|-258)":
+			v = new(big.Int).Mul(big.NewInt(3), pow2(nb-258))
+		default:
+			v = pow2(nb - 3)
+		}
+		if strings.HasPrefix(label, "-") {
+			return neg(v)
+		}
+		return v
 	case "rand":
 		if c.kind == cScalar {
 			return scalarBig(sample.Scalar(rand.Reader, group))
